@@ -47,6 +47,10 @@ CHECKS = {
                 text="For generated DOMs over database classes (and, descriptor by descriptor, every serializable non-migrating property in canonical and alias spelling) both encodings are written and read; TLC evaluates CrossIssues (CrossFormatTrace.tla): identical shape and, for every explicitly set property, the same canonical name (one Reflection.tla lookup for both codecs) with equal values (NaN as a class, the binary format's documented rotation snapping applied to the XML side). Conversion bin->xml and xml->bin must lose nothing the first read produced.",
                 note="Values sampled; Content object references excluded (recorded C02 finding).",
                 technique="TLA+ cross-format equivalence (CrossFormatTrace.tla over XmlFormat/BinaryFormat/Reflection) + trace validation"),
+    "C07": dict(level="model_checking", ref="§4 C07",
+                text="Model: MCBinaryColumns' OrderFree invariant (TLC) shows no property-map or alias-set iteration order reaches the writer's output. Implementation: logical forests (a function of seed and case) are built by three different construction histories with shuffled property insertion order in separate processes (fresh hash seeds, fresh Refs); DeterminismTrace.tla requires byte-identical binary (3 compressions) and XML output whenever the logical forest is equal, and save(load(save)) = save(load(save(load(save)))).",
+                note="Byte equality through BLAKE3 digests; constructions are those of harness/src/det.rs (inserts, scratch-holder + transfer_within + destroy, other-DOM + transfer).",
+                technique="TLA+ OrderFree invariant (TLC) + cross-process determinism traces judged by DeterminismTrace.tla"),
     "C08": dict(level="model_checking", ref="§4 C08, §2.5, App. B.3",
                 text="MCBinaryColumns.tla models collect_type_info and the per-instance value lookup with the real database as a constant; TLC checks AlwaysSucceeds / OwnValues / ColumnsExact / ExplicitWins for every subset assignment, sibling order, property-map and alias-set iteration order (and re-finds both repaired defects under the pre-fix rules). Every population (initial state) is built as a real DOM, written and read by rbx_binary, also instance by instance, and judged by BinaryFormat.tla (own values, defaults for lacking properties, success iff each instance succeeds alone).",
                 note="Exhaustive for the listed classes/spellings and 2-3 instances; other classes are reached by C01's random generators. The Font enum -> Font face table is uninterpreted.",
